@@ -178,6 +178,8 @@ pub struct GapOpts {
     pub seed_tags: Vec<String>,
     pub trivia_tags: Vec<String>,
     pub ctx_filter: Vec<String>,
+    /// seeds and trivia values tagged `opt` belong only to the universes that ask for them
+    pub opt: bool,
 }
 
 fn tag_match(want: &[String], have: &[String]) -> bool {
@@ -192,7 +194,7 @@ pub fn gap(defs: &Defs, o: &GapOpts) -> (Vec<Elem>, BTreeMap<String, u64>) {
     let mut stats: BTreeMap<String, u64> = BTreeMap::new();
     let mut bump = |k: &str| *stats.entry(k.to_string()).or_insert(0) += 1;
     for s in &defs.seeds {
-        if !tag_match(&o.seed_tags, &s.tags) {
+        if !tag_match(&o.seed_tags, &s.tags) || (!o.opt && s.tags.iter().any(|t| t == "opt")) {
             continue;
         }
         // a tag `only:<ctx>+<ctx>` restricts a seed to the named embedding contexts
@@ -228,7 +230,7 @@ pub fn gap(defs: &Defs, o: &GapOpts) -> (Vec<Elem>, BTreeMap<String, u64>) {
             let trivia: Vec<&Trivia> = defs
                 .trivia
                 .iter()
-                .filter(|t| tag_match(&o.trivia_tags, &t.tags))
+                .filter(|t| tag_match(&o.trivia_tags, &t.tags) && (o.opt || !t.tags.iter().any(|x| x == "opt")))
                 .collect();
             for (gi, off) in offs.iter().enumerate() {
                 for t in &trivia {
